@@ -16,16 +16,16 @@ P = {
          "Totality (panic = violation), fallback for unsupported kinds, identical string/number/truth value across every numeric carrier incl. defined types and float32-exact integers beyond 2^24, float32/float64 twins printed in sequence, wrapper transparency, bit-exact float64->string->number, plain-integer printing; int16 range exhaustive, floats sampled.",
          "Random floats are a sample of 2^64 bit patterns; user types limited to the zoo's shapes.", "DESIGN.md#c15"),
  "C16": (True, "exploration", "runtime monitoring: reflection-computed expectation (element / error / element-or-error) for GetAttr over container x key x argument zoo, recorded Iterate callback traces checked for order, exactly-once and loop identities, cross-checked with Len/Contains/Is*",
-         "Full product of the container, key and argument zoos (about 87k calls; every lookup preceded by the same lookup on a namesake or neighbouring value) plus template-level lookups; iteration traces at lengths 0..8 through 0..2 pointer levels with early breaks. A panic, a wrong element, a missing error or a trace anomaly is a violation.",
+         "Full product of the container, key and argument zoos (about 110k calls; every lookup preceded by the same lookup on a namesake or neighbouring value; embedded structs, defined key types, keys with a String method, values uncomparable at run time; every iterated key looked up again) plus template-level lookups; iteration traces at lengths 0..8 through 0..2 pointer levels with early breaks. A panic, a wrong element, a missing error or a trace anomaly is a violation.",
          "User types limited to the zoo's shapes; only one pointer level is required to work.", "DESIGN.md#c16"),
  "C02": (True, "exploration", "runtime monitoring: executor step-budget hook + recover/crash-isolating workers over hostile generated programs x Go-value contexts and built-in filters x value zoo",
-         "Hand-written templates for every situation the statement names, every built-in filter x the whole value zoo x 21 argument lists (direct and through templates), and seeded hostile programs using every tag and operator with inheritance/include/embed/use/import; any panic, process death (stack), step or CPU budget overrun is a violation.",
+         "Every context variable x every awkward key through [], in, for, is defined and set; hand-written templates for every situation the statement names, every built-in filter x the whole value zoo x 21 argument lists (direct and through templates), and seeded hostile programs using every tag and operator with inheritance/include/embed/use/import; any panic, process death (stack), step or CPU budget overrun is a violation.",
          "Template call graphs acyclic, range bounds small literals (both outside the claim); contexts limited to the zoo's shapes.", "DESIGN.md#c02"),
  "C04": (True, "exploration", "runtime monitoring: metamorphic oracle - flat vs reference-parenthesised spelling (pinned operator table, precedence climbing) compared on parsed tree and on rendering under 3 valuations",
-         "Exhaustive over all chains of <=2 (quick) / <=4 (thorough) of the 27 binary operators in 9 decorations (unary prefixes, trailing/inner/nested conditional, operands that are interpolated strings / calls / filters / subscripts / literals), random chains of 5..12 operators on top.",
+         "Exhaustive over all chains of <=2 (quick) / <=4 (thorough) of the 27 binary operators in 10 decorations (unary prefixes, trailing/inner/nested conditional incl. one nested in the true branch, operands that are interpolated strings / calls / filters / subscripts / literals; every other operand name begins with an operator word), random chains of 5..12 operators on top.",
          "The pinned table is the documented one; rendering panics are left to C02.", "DESIGN.md#c04"),
  "C05": (True, "exploration", "runtime monitoring: reference evaluator (executable model) compared on printed value, error-or-not and the recorded callback log of a recording environment",
-         "Exhaustive depth-1 operator x operand table plus typed random expression trees (depth<=4 quick, <=6 thorough) with recording functions/filters/tests, spelled with random white space and quotes in odd cases, every third tree re-evaluated three times in one execution under re-assigned variables; the callback log must match exactly (name, arguments in order, piped value first).",
+         "Exhaustive depth-1 operator x operand table plus typed random expression trees (depth<=4 quick, <=6 thorough) with recording functions/filters/tests, spelled with random white space and quotes in odd cases, every third tree re-evaluated three times in one execution under re-assigned variables; l..r for all pairs of 12 bounds against the invariants of an inclusive range; the callback log must match exactly (name, arguments in order, piped value first).",
          "The model encodes the documented semantics inside the agreement region; trees it refuses are regenerated.", "DESIGN.md#c05"),
  "C03": (True, "exploration", "%s; generated templates whose leaves are hostile literal chunks, comments and verbatim bodies" % M,
          "Seeded structure trees of literal chunks (multi-byte, newlines, lone and closing delimiters) interleaved with prints, comments and verbatim bodies, nested in if/for/block/set/filter/macro bodies to depth 4, spelled with and without inner blanks; byte-exact comparison with the model.",
@@ -40,7 +40,7 @@ P = {
          "Every nesting of the five capture kinds to depth 2 (quick) / 3 (thorough) x 3 continuations, re-entrant captures (recursive macros, a block rendering itself through block()), random nestings to depth 5 incl. loops, values passed on, includes and embeds of capturing templates, failing renders before every case; any misrouted, duplicated or lost byte shows as a marker mismatch.",
          "block() only targets leaf blocks; macro bodies use only their parameter.", "DESIGN.md#c08"),
  "C09": (True, "exploration", "%s and recorded Context.Name() of a callback in every block body; bounded-exhaustive inheritance configurations" % M,
-         "All override patterns {absent, override, override+parent()} for chains L<=3,B<=2 (quick) / L<=4,B<=4 (thorough) x layouts x 4 use variants (none, plain, aliased, same library at two levels); random larger shapes with block() and nested blocks in loops.",
+         "All override patterns {absent, override, override+parent()} for chains L<=3,B<=2 (quick) / L<=4,B<=4 (thorough) x layouts x 5 use variants (none, plain, aliased, same library at two levels, two use statements in one template), parent() called twice in half of the overriding bodies; random larger shapes with block() and nested blocks in loops.",
          "use only in extending templates; aliased originals unique.", "DESIGN.md#c09"),
  "C10": (True, "exploration", "%s with scope probes in host and target; exhaustive product of include/embed forms, call sites, targets and override subsets" % M,
          "2 x 7 x 6 x 5 x 4 x 2 coordinates all run in quick (loop variable colliding once as a string and once as null, construct used again right after the loop), random nested include-in-embed-in-include on top; host variables probed after the construct, target variables probed inside.",
@@ -58,13 +58,13 @@ P = {
          "Every fault point of every template of the set: writer at each k=1..W (three modes: reject, accept half, accept all and report an error), ExecuteSafe again after a failed delivery, loader at each k=1..L (two modes, Execute and ExecuteSafe), a failing construct at each node boundary of generated programs; oracles: non-nil error, accepted bytes are a prefix, no Write after a failed Write, ExecuteSafe writes nothing on failure and equals Execute on success.",
          "Template set = 22 hand-written + 300 (quick) / 3000 (thorough) generated programs; a writer fault in ExecuteSafe must be reported but may leave partial output.", "DESIGN.md#c17"),
  "C18": (True, "exploration", "Go race detector (-race workers, halt_on_error=0, logs parsed and deduplicated by the driver) plus differential monitor: every concurrent result equals the sequential result on a fresh environment; yield-injecting traverse hook and interleaving fingerprints in plain workers",
-         "Rounds of N in {2,4,16,64} goroutines x GOMAXPROCS {1,2,16} doing mixed Execute/Parse on one shared Twig and one shared core environment over 37 hand-written templates of mixed content types (failing captures, filters over a slice with spare capacity and a map shared by all contexts, checked intact after every round) and 10/24 generated programs; half the rounds under the race detector with a bare-Gosched hook, half in the plain build with seeded yields and an event log.",
+         "Rounds of N in {2,4,16,64} goroutines x GOMAXPROCS {1,2,16} doing mixed Execute/Parse on one shared Twig and one shared core environment over 37 hand-written templates of mixed content types (failing captures, filters over a slice with spare capacity and a map shared by all contexts, checked intact after every round) and 10/24 generated programs; calls with and without a context map; error values held until the end of the round and read again; half the rounds under the race detector with a bare-Gosched hook, half in the plain build with seeded yields and an event log.",
          "Only the schedules the Go scheduler plus the yield hook produce; harness callbacks are pure.", "DESIGN.md#c18"),
  "C19": (True, "exploration", "runtime monitoring: goroutine census (runtime.Stack(all)), live-tokeniser gauge from the verif hook and /proc/self/fd census after every call of a history, GC disabled",
          "Every corpus template with a syntax error injected at every (quick: every third) fragment boundary through string/memory/filesystem loaders, every sequence of <=3/<=4 hostile fragments, plus seeded histories of up to 50/200 calls (settled files reloaded through one loader) mixing valid templates, tokeniser/parser failures, broken includes/extends/imports, run-time failures and missing files.",
          "A goroutine present after 200 yield+1ms rounds is blocked (leaked tokenisers block on a channel nobody drains).", "DESIGN.md#c19"),
  "C20": (True, "exploration", "runtime monitoring: self-identifying anchors recorded by the speller vs positions reported by the parsed tree; reference scanner for truncations; injected tokens located by content; named-template errors",
-         "Positions on 8k/300k multi-line templates; every truncation offset of the injection and generated templates; '@' at every token boundary, a surplus literal before every closing delimiter, a stray closing bracket at every bracket-free boundary and an unknown tag at every statement position of 41 templates x 3 placements; broken named templates through 8 loading paths.",
+         "Positions on 8k/300k multi-line templates; every truncation offset of the injection and generated templates; '@' at every token boundary, a surplus literal before every closing delimiter, a stray closing bracket at every bracket-free boundary and an unknown tag; 95 kinds of broken template under 7 names through 8 loading paths; at every statement position of 41 templates x 3 placements; broken named templates through 8 loading paths.",
          "Comments, filters, attribute and operator expressions are not anchors named by the statement; injections inside endverbatim excluded.", "DESIGN.md#c20"),
 }
 NOT_BUILT_REASON = "check not built yet in this round (planned: see DESIGN.md section for this property)"
